@@ -466,6 +466,27 @@ def run_native(s):
                     bad.append(f"{name} {lay}: refused with NotImplementedError")
                 except Exception as e:  # noqa
                     bad.append(f"{name} {lay} {sched}: {type(e).__name__}: {str(e)[:120]}")
+    # lazy inputs that carry a dask-backed NON-INDEX coordinate chunked differently from the data (e.g. a 2-D lon attached after
+    # re-chunking): accepted like the same object in memory
+    import dask.array as dsa
+    lon = rng.random((ny, nx))
+    for name in ("diff", "interp", "max", "derivative"):
+        f = ops[name]
+        eager = f(c.assign_coords(lon=(("y_c", "x_c"), lon)), u, v)
+        for lay in ({"t": 2}, {"x_c": 5, "x_l": 5}):
+            n += 1
+            lazy_in = c.chunk({k: vv for k, vv in lay.items() if k in c.dims}).assign_coords(lon=(("y_c", "x_c"), dsa.from_array(lon, chunks=(2, 4))))
+            try:
+                Count.n = 0
+                with Count():
+                    lazy = f(lazy_in, u, v)
+                got = lazy.compute()
+                if Count.n > 1:
+                    bad.append(f"{name} {lay} with a differently chunked lazy coordinate: computed while building")
+                if got.dims != eager.dims or not np.allclose(got.values, eager.values):
+                    bad.append(f"{name} {lay} with a differently chunked lazy coordinate: result differs from the in-memory result")
+            except Exception as e:  # noqa
+                bad.append(f"{name} {lay} with a differently chunked lazy coordinate (accepted in memory): {type(e).__name__}: {str(e)[:120]}")
     obs = [{"fn": "native[bounded]", "clause": "lazy==eager-and-no-compute-while-building(real dask, 2 schedulers)", "status": "proved" if not bad else "failed", "time": 0,
             "detail": f"{n} runs" if not bad else f"{len(bad)} problems, e.g. {bad[0]}", "witness": {"part": "native", "cases": bad[:5]}}]
     return {"sid": s["sid"], "obligations": obs, "paths": 0, "queries": 0, "solver_time": 0.0, "engine_errors": [], "covers": {"native": 1}, "counts": {"bounded_standin_evaluations": n}}
